@@ -2,9 +2,10 @@
    correspondence checks of C05 C06 C07 C10 C11 C15.  ExtrOcamlBasic only.
    Run from ocaml/mach/gen by ocaml/build_model.sh. *)
 Require Import ExtrOcamlBasic.
-From Casbin Require Import Base Store Roles Priority Machine.
+From Casbin Require Import Base Store Roles Priority Machine Memo.
 Separate Extraction
   Machine.step Machine.run Machine.init_state Machine.listed Machine.get_store Machine.get_links
   Store.has Store.get_filtered Store.api_step
   Roles.has_link Roles.get_roles Roles.get_users
-  Priority.sort_by_priority Priority.sort_by_hierarchy.
+  Priority.sort_by_priority Priority.sort_by_hierarchy
+  Memo.cstep Memo.cinit Memo.enforce_pure.
